@@ -149,6 +149,22 @@ CLAIMED = {
         technique="symbolic execution (CrossHair/z3) of real parser on symbolic text/characters/operands; path-stubbed file names",
         ref="3/C13",
     ),
+    "C14": dict(
+        text="Symbolic execution of the real constructors, offset iteration and codec on pairs of revisions (D, D') of one "
+        "appendable type (5 revisions, each field list a prefix of the next) nested as field, fixed/variable array element, "
+        "union variant, inside another delimited type (also as array element) and after a sub-byte field. Layout: with the "
+        "extent symbolic (64*q + 8*r bits, q up to 2**40) the container's min/max/residues/extent, BitLengthSet equality "
+        "and the offsets of all following fields are identical for both revisions; exact expanded sets for small extents. "
+        "Wire: with the integer leaves of the nested objects and of the surrounding fields symbolic over their whole "
+        "ranges, deserialize(C[D'], serialize(C[D], v)) keeps common leading fields, yields zero/empty for fields unknown "
+        "to the writer, skips fields unknown to the reader and reads every following field and array element correctly, in "
+        "both directions, and the result is a fixed point of the reader's revision.",
+        note="Revisions/containers/array lengths/union variant are scaffolding. In the quick tier four of the eight leaves are "
+        "pinned to constants. Both revisions get identical generated type names so that state keyed by type equality is "
+        "exposed (through the concrete witness run: CrossHair does not trace C-level cache key hashing).",
+        technique="symbolic execution (CrossHair/z3) of real layout + codec on revision pairs; symbolic extent and leaf values",
+        ref="3/C14",
+    ),
     "C17": dict(
         text="Symbolic execution of the real parser / builder / reader on in-memory definitions: (a) the innermost-location "
         "rule of Error.set_error_location_if_unknown for unbounded symbolic line numbers and every presence pattern; (b) "
